@@ -392,9 +392,98 @@ u_huge(uint64_t idx, void *arg)
     vh_sig(0x08200000ull ^ idx);
 }
 
+/* ---- a request issued from the transmit-complete hook of the previous one: the sink driver of the instance, handed
+ * the last octet of a request frame, calls a request entry point of the same instance before it returns (an event
+ * driven requester pipelining its requests). Both frames are complete on the wire, one after the other, with
+ * successive sequence numbers, and the session has moved on by two. ---- */
+static struct {
+    int w16;
+    uint32_t addr, n;
+    int rc;
+} nest;
+
+static void
+nest_emit(struct rp_h *h)
+{
+    nest.rc = nest.w16 ? regp_req_read16(&h->p, nest.addr, nest.n) : regp_req_read8(&h->p, nest.addr, nest.n);
+}
+
+static void
+u_nested(uint64_t idx, void *arg)
+{
+    (void)arg;
+    vh_rng rg;
+    vh_unit_rng(&rg, "nested", idx);
+    const int serial = (int)(idx & 1), mem16 = (int)(idx >> 1) & 1;
+    static unsigned char rawA[700], rawB[64], wireA[1400], wireB[160];
+    for (int k = 0; k < 30; k++) {
+        vh_arena_reset();
+        rp_next_sink_octet = (int)((vh_unit_salt >> 9) + (unsigned)k) & 1;
+        rp_setup(&A, serial, mem16, 256);
+        const uint16_t seq = k == 0 ? 0xfffe : k == 1 ? 0xffff : (uint16_t)vh_rand(&rg);
+        A.p.session.sequence = seq;
+        /* outer request: a write with a control-rich payload or a read */
+        struct rframe a, b;
+        memset(&a, 0, sizeof a);
+        memset(&b, 0, sizeof b);
+        const int outer_write = k & 1, ow16 = (int)vh_below(&rg, 2);
+        const size_t words = 1 + (size_t)vh_below(&rg, 20), ws = ow16 ? 2 : 1;
+        fill_payload(&rg, words * ws);
+        a.type = outer_write ? RT_WRITE_REQ : RT_READ_REQ;
+        a.seq = seq;
+        a.addr = (uint32_t)vh_rand(&rg);
+        a.bsize = (uint32_t)words;
+        a.options = (ow16 ? ROPT_W16 : 0) | (serial ? ROPT_HDCRC : 0) | (serial && outer_write ? ROPT_PLCRC : 0);
+        a.payload = pay;
+        a.plen = outer_write ? words * ws : 0;
+        size_t an = rp_encode_raw(&a, rawA), awn = rp_wire(serial, rawA, an, wireA);
+        nest.w16 = (int)vh_below(&rg, 2);
+        nest.addr = vh_chance(&rg, 1, 2) ? 0xc0dbc0dbu : (uint32_t)vh_rand(&rg);
+        nest.n = (uint32_t)vh_below(&rg, 100);
+        nest.rc = -9999;
+        b.type = RT_READ_REQ;
+        b.seq = (uint16_t)(seq + 1);
+        b.addr = nest.addr;
+        b.bsize = nest.n;
+        b.options = (nest.w16 ? ROPT_W16 : 0) | (serial ? ROPT_HDCRC : 0);
+        size_t bn = rp_encode_raw(&b, rawB), bwn = rp_wire(serial, rawB, bn, wireB);
+        A.out_n = 0;
+        A.nest_at = awn;
+        A.nest_fn = nest_emit;
+        VH_CASE4(idx, k, seq, outer_write);
+        int rc;
+        unsigned char *buf = vh_arena_copy(pay, words * ws);
+        if (outer_write)
+            rc = ow16 ? regp_req_write16(&A.p, a.addr, words, (uint16_t *)(void *)buf) : regp_req_write8(&A.p, a.addr, words, buf);
+        else
+            rc = ow16 ? regp_req_read16(&A.p, a.addr, words) : regp_req_read8(&A.p, a.addr, words);
+        char key[96];
+        snprintf(key, sizeof key, "entry=nested-request transport=%s outer=%s", serial ? "serial" : "tcp", outer_write ? "write" : "read");
+        if (A.nest_fn != NULL) {
+            vh_fail("nested-hook-not-reached", key, "seq=%u: the sink never held exactly %zu octets (it holds %zu)", seq, awn, A.out_n);
+            A.nest_fn = NULL;
+            continue;
+        }
+        if (rc < 0 || nest.rc < 0)
+            vh_fail("emit-fails", key, "seq=%u: outer rc=%d nested rc=%d", seq, rc, nest.rc);
+        else if (A.out_n != awn + bwn || memcmp(A.out, wireA, awn) != 0 || memcmp(A.out + awn, wireB, bwn) != 0)
+            vh_fail("wire-octets", key, "seq=%u: %zu octets on the wire, expected %zu + %zu; second frame %s expected %s", seq, A.out_n, awn, bwn,
+                    vh_hex(A.out + (A.out_n > awn ? awn : 0), A.out_n > awn ? (A.out_n - awn > 24 ? 24 : A.out_n - awn) : 0),
+                    vh_hex(wireB, bwn > 24 ? 24 : bwn));
+        else if (A.p.session.sequence != (uint16_t)(seq + 2))
+            vh_fail("sequence", key, "seq=%u: session sequence %u after two requests", seq, A.p.session.sequence);
+        (*vh_ncases)++;
+        VH_COUNT("request issued from the transmit-complete hook of the previous one");
+    }
+    vh_sig(0x08e00000ull ^ idx);
+}
+
 void
 harness_run(void)
 {
+    for (uint64_t i = 0; i < 8; i++)
+        vh_unit("nested", i, u_nested, NULL);
+    vh_require("request issued from the transmit-complete hook of the previous one");
     for (uint64_t i = 0; i < 32; i++)
         if (vh_tier || (i >> 2) % 8 == 2 || (i >> 2) % 8 == 6 || i % 5 == 0)
             vh_unit("huge", i, u_huge, NULL);
